@@ -89,7 +89,7 @@ TEXTS = {
 TEXTS.update({
     'C01': {
         'level': "Forward dataflow (abstract interpretation with intervals on length-offset, raw-cursor distances, integer locals and symbolic-index facts) over every function of the parse family: every read of the input is shown to be covered by a guard on every path, callee entry requirements are inferred by a call-graph fixpoint and checked at every call site, local arrays and sprintf targets stay in bounds, nothing is stored through the input, every recursion cycle is depth-gated, every loop steps forward, and whatever a parsing function allocates is linked, released or handed on on every path (OWN2 over the parse family: the 'or a leak' clause). This is exhaustive over paths of the current source, where tests with zero-terminated literals cannot see an over-read of one byte.",
-        'note': COMMON_NOTE + " Entry assumption = API contract (value[0..buffer_length) readable). Not decided: write bound of parse_string's output block, walkability of the result, arithmetic UB beyond TAB7.",
+        'note': COMMON_NOTE + " Entry assumption = API contract (value[0..buffer_length) readable). Not decided: walkability of the result, arithmetic UB beyond TAB7.",
         'technique': 'static analysis: forward dataflow / interval abstract interpretation on an own CFG with lowered conditions; call-graph fixpoint for callee requirements; SCC-based recursion-gate check',
         'ref': 'DESIGN.md 4 C01; 3 BND1 BND2 BND4 BND6 EFF7 TAB1 TAB2',
     },
@@ -185,4 +185,9 @@ for _k, _t in ADDENDA.items():
     _l = TEXTS[_k]['level']
     _i = max(_l.rfind(' Does not decide'), _l.rfind(' The merged value itself'))
     TEXTS[_k]['level'] = (_l[:_i] + ' ' + _t + _l[_i:]) if _i > 0 else (_l + ' ' + _t)
+ADDENDA_END = {
+    'C01': "OUT9: the decoded string fits the block allocated for it (the scan's escape count, the block size as a linear form over the scan's end and start, what every turn of the decoder writes against what it consumes, the UTF-16 arm over value sets, the terminator) - a count over the whole literal assembled from per-step facts.",
+}
+for _k, _t in ADDENDA_END.items():
+    TEXTS[_k]['level'] += ' ' + _t
 NOT_APPLICABLE = {}
